@@ -445,3 +445,68 @@ def compare_public(obj, snap):
         elif not same_bits(np.asarray(got), ref):
             bad.append((k, np.asarray(got), ref))
     return bad
+
+
+# ---------------------------------------------------------------------------------------------- cold-process reference
+_cold = {}
+
+_COLD_SCRIPT = r"""
+import sys, json, hashlib, warnings
+warnings.simplefilter("ignore")
+from grid.angular import AngularGrid
+out = []
+for m, d, s in json.loads(sys.stdin.read()):
+    g = AngularGrid(size=s, method=m, cache=False)   # nothing is ever cached in this process: every request is cold
+    out.append([m, d, s, int(g.degree), int(g.size), hashlib.blake2b(g.points.tobytes(), digest_size=16).hexdigest(), hashlib.blake2b(g.weights.tobytes(), digest_size=16).hexdigest()])
+print("COLD" + json.dumps(out))
+"""
+
+
+def cold_reference(rows):
+    """What a COLD process (fresh interpreter, empty caches, cache=False throughout) returns for each supported row
+    requested by size: (method, degree, size) -> (reported degree, reported size, digest(points), digest(weights))."""
+    import json
+    import os
+    import subprocess
+
+    from gridrv import core
+
+    todo = [list(r) for r in rows if tuple(r) not in _cold]
+    if todo:
+        env = dict(os.environ)
+        env["PYTHONPATH"] = core.SRC
+        env["PYTHONDONTWRITEBYTECODE"] = "1"
+        p = subprocess.run([sys.executable, "-c", _COLD_SCRIPT], input=json.dumps(todo), capture_output=True, text=True, env=env, timeout=600)
+        line = [ln for ln in p.stdout.splitlines() if ln.startswith("COLD")]
+        if p.returncode != 0 or not line:
+            raise RuntimeError("cold-process reference failed: " + (p.stderr or p.stdout)[-300:])
+        for m, d, s, gd, gs, hp, hw in json.loads(line[0][4:]):
+            _cold[(m, d, s)] = (gd, gs, hp, hw)
+    return _cold
+
+
+def check_request(ctx, subj, g, method, degree, size, detail=None):
+    """A constructed AngularGrid against the size/degree-resolved model row: reported degree/size, shipped data,
+    and the cold-process reference."""
+    det = dict(detail or {})
+    got = (int(g.degree), int(g.size), int(np.asarray(g.points).shape[0]))
+    det.update({"reported": list(got), "model": [int(degree), int(size)]})
+    sig = None
+    if got != (int(degree), int(size), int(size)):
+        sig = "reports-other-row" if got[1] == got[2] else "reported-degree-does-not-match-its-points"
+    ctx.check("angular-reports-resolved-degree-size", subj, sig is None, sig=sig, detail=det)
+    ok = check_angular(ctx, "angular-equals-shipped", subj, g, method, degree, size, extra=det)
+    ref = _cold.get((method, int(degree), int(size)))
+    if ref is not None:
+        import hashlib
+
+        hp = hashlib.blake2b(np.ascontiguousarray(g.points).tobytes(), digest_size=16).hexdigest()
+        hw = hashlib.blake2b(np.ascontiguousarray(g.weights).tobytes(), digest_size=16).hexdigest()
+        same = (int(g.degree), int(g.size), hp, hw) == tuple(ref)
+        sig = None
+        if not same:
+            sig = "differs-from-cold-process:" + ("degree-size" if (int(g.degree), int(g.size)) != tuple(ref[:2]) else "data")
+        ctx.check("angular-equals-cold-process", subj, same, sig=sig, detail=det)
+    else:
+        ctx.count("cold-reference-not-available-for-row")
+    return ok
